@@ -1,7 +1,7 @@
 #!/bin/bash
 # Generates the build overlay from the installed go1.26.8 GOROOT: the runtime's two sources of randomness that the
 # simulator owns -- the poll order of select and the seeds/offsets of map iteration -- become functions of
-# runtime.SimSeed (0 = stock behaviour). Fails loudly if a pattern is not found.
+# runtime.SimSeed (0 = stock behaviour), and the key of the map hash function is a constant. Fails loudly if a pattern is not found.
 set -e
 here=$(cd "$(dirname "$0")" && pwd)
 G=$(GOTOOLCHAIN=local go1.26.8 env GOROOT)/src
@@ -19,6 +19,40 @@ assert old in s, "maps_rand body changed"
 s=s.replace(old,"func maps_rand() uint64 {\n\tif SimSeed != 0 {\n\t\treturn simMix(SimSeed)\n\t}\n\treturn rand()\n}")
 open(sys.argv[2],"w").write(s)
 PY
+# the hash function of maps is keyed with per-process random data (alginit): a map with more than one group of slots
+# iterates in an order that depends on it, so a run replayed in another process could take another order.  The overlay
+# (which only the simulation binary is built with) fixes the key.
+grep -q 'hashkey\[i\] = uintptr(bootstrapRand())' "$G/runtime/alg.go" && grep -q 'key\[i\] = bootstrapRand()' "$G/runtime/alg.go" || { echo "overlay: alg.go pattern not found"; exit 1; }
+sed -e 's/hashkey\[i\] = uintptr(bootstrapRand())/hashkey[i] = uintptr(simFixedKey(i))/' -e 's/key\[i\] = bootstrapRand()/key[i] = simFixedKey(i)/' "$G/runtime/alg.go" > "$out/alg.go"
+test "$(grep -c simFixedKey "$out/alg.go")" = 2
+# The seed of a map that starts small (at most one group of slots) is drawn by compiler-generated code straight from
+# runtime.rand, not through maps.rand; it begins to matter when the map outgrows the group and its entries are spread by
+# hash.  At exactly that point growToTable re-hashes every entry anyway: the overlay draws a fresh seed through
+# maps.rand there, and every assign function that calls it recomputes the hash of the key it is inserting.
+python3 - "$G/internal/runtime/maps" "$out" <<'PY'
+import re, sys
+src, out = sys.argv[1], sys.argv[2]
+sites = 0
+for name in ["map.go", "runtime.go", "runtime_fast32.go", "runtime_fast64.go", "runtime_faststr.go"]:
+    lines = open(f"{src}/{name}").read().split("\n")
+    res, lasthash = [], None
+    for l in lines:
+        m = re.match(r"^\thash := (typ\.Hasher\(.*, m\.seed\))$", l)
+        if m:
+            lasthash = m.group(1)
+        if l.startswith("func "):
+            lasthash = None
+        res.append(l)
+        if l == "func (m *Map) growToTable(typ *abi.MapType) {":
+            res.append("\tm.seed = uintptr(rand()) // verification overlay")
+        if l.strip() == "m.growToTable(typ)":
+            assert lasthash, f"{name}: growToTable call without a preceding hash computation"
+            res.append(l.replace("m.growToTable(typ)", "hash = " + lasthash + " // verification overlay: the seed changed"))
+            sites += 1
+    open(f"{out}/maps_{name}", "w").write("\n".join(res))
+assert sites == 7, f"expected 7 growToTable call sites, found {sites}"
+PY
+grep -q 'verification overlay' "$out/maps_map.go"
 cat > "$out/zsim.go" <<'GO'
 package runtime
 
@@ -35,6 +69,11 @@ func simMix(x uint64) uint64 {
 	return x
 }
 
+// simFixedKey replaces the per-process random key of the map hash function.
+func simFixedKey(i int) uint64 {
+	return simMix(uint64(i)+0x5eed5eed) | 1
+}
+
 func simSelectRand(n uint32, pc uintptr) uint32 {
 	if SimSeed == 0 {
 		return cheaprandn(n)
@@ -43,6 +82,6 @@ func simSelectRand(n uint32, pc uintptr) uint32 {
 }
 GO
 cat > "$here/overlay.json" <<JSON
-{"Replace": {"$G/runtime/select.go": "$out/select.go", "$G/runtime/rand.go": "$out/rand.go", "$G/runtime/zsim.go": "$out/zsim.go"}}
+{"Replace": {"$G/runtime/select.go": "$out/select.go", "$G/runtime/rand.go": "$out/rand.go", "$G/runtime/zsim.go": "$out/zsim.go", "$G/runtime/alg.go": "$out/alg.go", "$G/internal/runtime/maps/map.go": "$out/maps_map.go", "$G/internal/runtime/maps/runtime.go": "$out/maps_runtime.go", "$G/internal/runtime/maps/runtime_fast32.go": "$out/maps_runtime_fast32.go", "$G/internal/runtime/maps/runtime_fast64.go": "$out/maps_runtime_fast64.go", "$G/internal/runtime/maps/runtime_faststr.go": "$out/maps_runtime_faststr.go"}}
 JSON
 echo "overlay generated in $out"
